@@ -142,35 +142,86 @@ class QfixedImp(float, Qtype):
         return v[1][v[0].BIT_SIZE_FRACTIONAL :] + v[1][: v[0].BIT_SIZE_FRACTIONAL][::-1]
 
     @staticmethod
+    def _parts(v: TExp):
+        """Integer and fractional bits of a Qfixed (or of a Qint: no fractional bits)"""
+        if issubclass(v[0], QfixedImp):
+            return list(v[1][: v[0].BIT_SIZE_INTEGER]), list(
+                v[1][v[0].BIT_SIZE_INTEGER :]
+            )
+        elif issubclass(v[0], QintImp):
+            return list(v[1]), []
+        raise TypeErrorException(v[0], QfixedImp)
+
+    @staticmethod
+    def align(tleft: TExp, tright: TExp):
+        """Both operands in a common format (i integer bits, f fractional bits): operands
+        of different formats (a constant has the smallest format that holds it) are aligned
+        on the binary point and zero filled"""
+        li, lf = QfixedImp._parts(tleft)
+        ri, rf = QfixedImp._parts(tright)
+        i, f = max(len(li), len(ri)), max(len(lf), len(rf))
+
+        def conv(ip, fp):
+            return ip + [False] * (i - len(ip)) + fp + [False] * (f - len(fp))
+
+        return i, f, conv(li, lf), conv(ri, rf)
+
+    @staticmethod
+    def type_for_format(i: int, f: int):
+        """The smallest Qfixed type with at least i integer and f fractional bits"""
+        for t in sorted(QFIXED_TYPES, key=lambda t: t.BIT_SIZE):
+            if t.BIT_SIZE_INTEGER >= i and t.BIT_SIZE_FRACTIONAL >= f:
+                return t
+        raise TypeErrorException(f"Qfixed{i}_{f}", QfixedImp)
+
+    @classmethod
+    def fill(cls, v: TExp) -> TExp:
+        """Convert a value of a smaller Qfixed format to this type"""
+        if (
+            issubclass(v[0], QfixedImp)
+            and v[0] is not cls
+            and len(v[1]) == v[0].BIT_SIZE
+        ):
+            ip, fp = QfixedImp._parts(v)
+            if len(ip) > cls.BIT_SIZE_INTEGER or len(fp) > cls.BIT_SIZE_FRACTIONAL:
+                raise TypeErrorException(v[0], cls)
+            return (
+                cls,
+                ip
+                + [False] * (cls.BIT_SIZE_INTEGER - len(ip))
+                + fp
+                + [False] * (cls.BIT_SIZE_FRACTIONAL - len(fp)),
+            )
+        return super().fill(v)
+
+    @staticmethod
     def eq(tleft: TExp, tcomp: TExp) -> TExp:
+        _, _, tl, tc = QfixedImp.align(tleft, tcomp)
         ex = true
-        for x in zip(tleft[1], tcomp[1]):
+        for x in zip(tl, tc):
             ex = And(ex, _eq(x[0], x[1]))
 
         return (bool, ex)
 
     @staticmethod
     def neq(tleft: TExp, tcomp: TExp) -> TExp:
+        _, _, tl, tc = QfixedImp.align(tleft, tcomp)
         ex = false
-        for x in zip(tleft[1], tcomp[1]):
+        for x in zip(tl, tc):
             ex = Or(ex, _neq(x[0], x[1]))
 
         return (bool, ex)
 
     @staticmethod
     def gt(tleft: TExp, tcomp: TExp) -> TExp:
-        if not issubclass(tleft[0], QfixedImp):
-            raise TypeErrorException(tleft[0], QfixedImp)
-        if not issubclass(tcomp[0], QfixedImp):
-            raise TypeErrorException(tcomp[0], QfixedImp)
+        i, _, tl, tc = QfixedImp.align(tleft, tcomp)
 
-        tleft_e = cast(Qtype, tleft)
-        tcomp_e = cast(Qtype, tcomp)
-
-        tl_v = QfixedImp._to_qint_repr(tleft_e)
-        tc_v = QfixedImp._to_qint_repr(tcomp_e)
+        # Little endian: fractional bits (least significant first), then integer bits
+        tl_v = tl[i:][::-1] + tl[:i]
+        tc_v = tc[i:][::-1] + tc[:i]
 
         prev: List[Symbol] = []
+        ex = false
 
         for a, b in list(zip(tl_v, tc_v))[::-1]:
             if len(prev) == 0:
@@ -179,14 +230,6 @@ class QfixedImp(float, Qtype):
                 ex = Or(ex, And(*(prev + [a, Not(b)])))
 
             prev.append(_eq(a, b))
-
-        if len(tl_v) > len(tc_v):
-            for x in tl_v[len(tc_v) :]:
-                ex = Or(ex, x)
-
-        if len(tl_v) < len(tc_v):
-            for x in tc_v[len(tl_v) :]:
-                ex = Or(ex, x)
 
         return (bool, ex)
 
@@ -215,14 +258,13 @@ class QfixedImp(float, Qtype):
         if not issubclass(tleft[0], QfixedImp):
             raise TypeErrorException(tleft[0], QfixedImp)
 
-        tright_e = cast(Qtype, tright)
-        tleft_e = cast(Qtype, tleft)
-
-        if len(tleft_e[1]) > len(tright_e[1]):
-            tright_e = tleft_e[0].fill(tright_e)
-
-        elif len(tleft_e[1]) < len(tright_e[1]):
-            tleft_e = tright_e[0].fill(tleft_e)
+        # The operands in their common format (or, if there is no type with exactly that
+        # format, in the next one)
+        i, f, tl, tr = QfixedImp.align(tleft, tright)
+        t = QfixedImp.type_for_format(i, f)
+        fi, ff = t.BIT_SIZE_INTEGER - i, t.BIT_SIZE_FRACTIONAL - f
+        tleft_e = (t, tl[:i] + [False] * fi + tl[i:] + [False] * ff)
+        tright_e = (t, tr[:i] + [False] * fi + tr[i:] + [False] * ff)
 
         tl_v = QfixedImp._to_qint_repr(tleft_e)
         tr_v = QfixedImp._to_qint_repr(tright_e)
@@ -239,9 +281,16 @@ class QfixedImp(float, Qtype):
         if not issubclass(tright[0], Qtype):
             raise TypeErrorException(tright[0], Qtype)
 
-        an = cls.bitwise_not(cls.fill(tleft))
-        su = cls.add(an, cls.fill(tright))
-        return cls.bitwise_not(su)
+        # a - b = ~(~a + b), computed in the common format of the operands
+        i, f, tl, tr = QfixedImp.align(tleft, tright)
+        t = QfixedImp.type_for_format(i, f)
+        fi, ff = t.BIT_SIZE_INTEGER - i, t.BIT_SIZE_FRACTIONAL - f
+        tleft_e = (t, tl[:i] + [False] * fi + tl[i:] + [False] * ff)
+        tright_e = (t, tr[:i] + [False] * fi + tr[i:] + [False] * ff)
+
+        an = t.bitwise_not(tleft_e)
+        su = t.add(an, tright_e)
+        return t.bitwise_not(su)
 
     @classmethod
     def mul(cls, tleft: TExp, tright: TExp) -> TExp:  # noqa: C901
